@@ -125,10 +125,18 @@ type access struct {
 	site int32
 }
 
-type locState struct {
+type accSet struct {
 	lastWrite access
 	hasWrite  bool
 	reads     []access // reads since the last write (one per task)
+}
+
+// locState keeps plain and atomic accesses apart: two atomic accesses never race with each
+// other (sync/atomic operations are sequentially consistent synchronisation), a plain access
+// races with any conflicting access, plain or atomic, that is not ordered by happens-before.
+type locState struct {
+	plain accSet
+	atom  accSet
 }
 
 // Race is one reported conflict.
@@ -147,37 +155,56 @@ func (r Race) String() string {
 }
 
 func (s *Sim) recordAccess(t *Task, addr uintptr, site int32, write bool) {
+	s.recordAccessA(t, addr, site, write, false)
+}
+
+func (s *Sim) recordAccessA(t *Task, addr uintptr, site int32, write, atomic bool) {
 	l := s.locs[addr]
 	if l == nil {
 		l = &locState{}
 		s.locs[addr] = l
 	}
 	me := access{task: t.ID, clk: t.vc[t.ID], site: site}
-	if l.hasWrite && l.lastWrite.task != t.ID && !epochLE(l.lastWrite.task, l.lastWrite.clk, t.vc) {
-		k := "write-read"
-		if write {
-			k = "write-write"
+	check := func(set *accSet) {
+		if set.hasWrite && set.lastWrite.task != t.ID && !epochLE(set.lastWrite.task, set.lastWrite.clk, t.vc) {
+			k := "write-read"
+			if write {
+				k = "write-write"
+			}
+			s.addRace(Race{Addr: addr, Kind: k, SiteA: set.lastWrite.site, SiteB: site, TaskA: set.lastWrite.task, TaskB: t.ID, Step: s.Steps})
 		}
-		s.addRace(Race{Addr: addr, Kind: k, SiteA: l.lastWrite.site, SiteB: site, TaskA: l.lastWrite.task, TaskB: t.ID, Step: s.Steps})
-	}
-	if write {
-		for _, r := range l.reads {
-			if r.task != t.ID && !epochLE(r.task, r.clk, t.vc) {
-				s.addRace(Race{Addr: addr, Kind: "read-write", SiteA: r.site, SiteB: site, TaskA: r.task, TaskB: t.ID, Step: s.Steps})
+		if write {
+			for _, r := range set.reads {
+				if r.task != t.ID && !epochLE(r.task, r.clk, t.vc) {
+					s.addRace(Race{Addr: addr, Kind: "read-write", SiteA: r.site, SiteB: site, TaskA: r.task, TaskB: t.ID, Step: s.Steps})
+				}
 			}
 		}
-		l.reads = l.reads[:0]
-		l.lastWrite = me
-		l.hasWrite = true
+	}
+	check(&l.plain)
+	if !atomic {
+		check(&l.atom)
+	}
+	own := &l.plain
+	if atomic {
+		own = &l.atom
+	}
+	if write {
+		own.reads = own.reads[:0]
+		if !atomic {
+			l.atom.reads = l.atom.reads[:0]
+		}
+		own.lastWrite = me
+		own.hasWrite = true
 		return
 	}
-	for i := range l.reads {
-		if l.reads[i].task == t.ID {
-			l.reads[i] = me
+	for i := range own.reads {
+		if own.reads[i].task == t.ID {
+			own.reads[i] = me
 			return
 		}
 	}
-	l.reads = append(l.reads, me)
+	own.reads = append(own.reads, me)
 }
 
 func (s *Sim) addRace(r Race) {
